@@ -186,6 +186,11 @@ func (st *State) heapGet(key, sort string) string {
 		}
 	}
 	st.fx.keySorts[key] = sort
+	if ep == 0 && (strings.HasPrefix(key, "L|") || strings.HasPrefix(key, "R|")) {
+		// no lock is held by this execution when the function under verification starts
+		st.heap[key] = zeroLocks
+		return zeroLocks
+	}
 	name := fmt.Sprintf("H%d_%s", ep, sanitize(key))
 	st.fx.sol.DeclareConst(name, sort)
 	st.heap[key] = name
@@ -460,3 +465,5 @@ func (w wfAsserter) Assert(t string) {
 	}
 	w.st.fx.sol.Assert(t)
 }
+
+const zeroLocks = "((as const (Array Int Int)) 0)"
